@@ -483,6 +483,34 @@ class Gen:
                     raise Unsupported("contract of %s refers to a parameter the function no longer has" % key)
                 out.append((l, p_, e))
             return out
+        # by-value parameters whose release matters to a contract (the lifecycle's own strong ActorRef): the only by-value use the
+        # rules can follow is the explicit `drop(p, w)`.  Moved into another binding, shadowed, or left to an implicit scope-end
+        # drop, the release would be invisible in the verified text and a CORRECT function would fail its invariant.
+        if body is not None and not assumed:
+            for ph in spec.get("explicit_drop_only", []):
+                nm = ph
+                for i, pn in enumerate(pnames, 1):
+                    nm = nm.replace("$%d" % i, pn)
+                bc0 = Code(body)
+                # the parameter lives until its explicit drop (a move): same-named identifiers after that are other bindings
+                end = None
+                for q in range(len(bc0)):
+                    if bc0.kind(q) == "id" and bc0.t(q) == nm and bc0.t(q - 1) == "(" and bc0.t(q - 2) == "drop":
+                        end = q; break
+                if end is None:
+                    raise Unsupported("the by-value parameter `%s` of %s is never released by an explicit drop: its release cannot be made explicit" % (nm, key))
+                for q in range(end):
+                    if bc0.kind(q) != "id" or bc0.t(q) != nm:
+                        continue
+                    prev, nxt = bc0.t(q - 1), bc0.t(q + 1)
+                    if prev in ("&", ".", "::") or (prev == "mut" and bc0.t(q - 2) == "&") or nxt in (".", "::"):
+                        continue        # borrowed / field / method call
+                    if nxt == ":" and prev in ("{", ","):
+                        continue        # struct-literal field label
+                    if prev == "(" and bc0.t(q - 2) == "drop":
+                        continue
+                    raise Unsupported("the by-value parameter `%s` of %s is moved, shadowed or released otherwise than by an explicit drop: "
+                                      "its release cannot be made explicit" % (nm, key))
         lines = []
         for a in spec.get("attrs", []):
             lines.append(a)
